@@ -281,3 +281,13 @@ func RPS(a int) *S {
 	}
 	return &S{K: a}
 }
+
+// P32 has a 4-byte parameter (C13: expression objects shared between configurations).
+//
+//go:noinline
+func P32(a int32) int {
+	if a > 1<<30 {
+		return int(a)*41 - 1
+	}
+	return int(a) + 950
+}
